@@ -56,7 +56,18 @@ func (et *ExecuteTimeout) Handler(ctx context.Context, name string, args []inter
 	defer cancel()
 	c := make(chan returnValue, 1)
 	go func() {
+		// a panic of the service function must end this call, not the process: outside
+		// this goroutine it would have been recovered by Service.Process
+		panicking := true
+		defer func() {
+			if e := recover(); e != nil {
+				c <- returnValue{nil, core.NewPanicError(e)}
+			} else if panicking {
+				c <- returnValue{nil, core.NewPanicError("panic called with nil argument")}
+			}
+		}()
 		result, err := next(ctx, name, args)
+		panicking = false
 		c <- returnValue{result, err}
 	}()
 	select {
